@@ -65,7 +65,7 @@ pf_insert_pad(
     const size_t real_length = pf_min(me->length, me->capacity);
     me->length += n;
 
-    if (i >= real_length)
+    if (i > real_length) // i == real_length appends the padding
         return 0;
 
     // Ignore string head by subtracting i // TODO simplify this insanity
